@@ -136,7 +136,11 @@ impl<'a> PositionCalculator<'a> {
     }
 
     pub(crate) fn step<R: RuleType>(&mut self, pair: &Pair<R>) -> Pos {
-        let pos = pair.as_span().start();
+        self.step_to(pair.as_span().start())
+    }
+
+    /// The position of the byte offset `pos`, which must not be before the previous one.
+    pub(crate) fn step_to(&mut self, pos: usize) -> Pos {
         debug_assert!(pos >= self.pos);
         let bytes_to_read = pos - self.pos;
         let chars_to_read = self.input[..bytes_to_read].chars();
